@@ -215,7 +215,7 @@ def pool():
            ((1, (2,)), 3)]              # unary above a token
     out = []
     for i, sh in enumerate(shs):
-        out.append(decorated(sh, i, sid=[7, 3, 3, 12, 100, 101, 5, 6][i]))
+        out.append(decorated(sh, i, sid=[7, 3, 3, 12, 100, 101, 0, 6][i]))
     return out
 
 
@@ -476,6 +476,7 @@ def plan(tier, seed):
                 chunks.append({'kind': 'auto', 'prefix': [a, b, c], 'L': L})
     chunks.append({'kind': 'auto-short', 'L': 2})
     chunks.append({'kind': 'cli-options'})
+    chunks.append({'kind': 'cli-directory'})
     ncorp = len(corpora(tier))
     for fmt in ('export', 'brackets', 'discobrackets', 'tigerxml'):
         for lo in range(0, ncorp, 12):
@@ -486,7 +487,7 @@ def plan(tier, seed):
                 'rendered as a file (3 whitespace styles, with/without final newline) and read with emptypos x '
                 'gf_split on/off; subtrees are cut only after reference and implementation both rejected the prefix. '
                 '(b) %d corpora of 1..3 sentences (feature pool + all shapes n <= %d) x all layouts of each format x '
-                'option sets (every single option, gzip, 3 encodings, combinations). (c) gf_split through the command line next to the writer options gf / gf_separator. non-trivial = sequences that '
+                'option sets (every single option, gzip, 3 encodings, combinations). (c) gf_split through the command line next to the writer options gf / gf_separator; directories of source files (named like split parts) through the command line, twice. non-trivial = sequences that '
                 'contain at least one complete group; corpora cases are all non-trivial'
                 % (L, ncorp, 3 if tier == 'quick' else 4),
         'bound': 'class sequences of length <= %d; corpora of <= %d sentences' % (L, 2 if tier == 'quick' else 3),
@@ -509,6 +510,10 @@ def variants_for(tier):
 
 
 def check_case(case):
+    if case.get('dir'):
+        from .c03 import check_directory
+        with quiet():
+            return check_directory(case['a'], case['b'], case['src'], case['dest'])
     with quiet():
         if case.get('gf_transfer'):
             from .c03 import check_gf_transfer
@@ -520,6 +525,21 @@ def check_case(case):
 
 
 def run_chunk(chunk):
+    if chunk.get('kind') == 'cli-directory':
+        # a directory of files through the command line (names as `--split` gives them; a second run over the same directory)
+        from .c03 import check_directory, pool
+        res = Result()
+        P = pool(False)
+        with quiet():
+            for src, dest in [('export3', 'export3'), ('tigerxml', 'export4'), ('discobrackets', 'export3')]:
+                vs = check_directory([m.to_json() for m in P[:2]], [m.to_json() for m in P[2:4]], src, dest)
+                res.evals += 1
+                res.nontrivial += 1
+                res.outcome(('cli-directory', src, dest, len(vs)))
+                for v in vs:
+                    res.violation(v['kind'], v['where'], v['case'], v['detail'], v['what'])
+        res.sample({'cli': 'treetools transform DIR ignored --src-format S --dest-format D', 'files': ['part.0', 'part.1']})
+        return res
     res = Result()
     with quiet():
         if chunk['kind'] == 'auto':
